@@ -17,8 +17,9 @@ Assumed: MASK -- if _extract_cond_masks(cond, sig_index) is not None then, for e
 bit list, `bits[a_idx] == a_val and bits[c_idx] == c_val` holds exactly when the world verifies
 cond, `bits[a_idx] == a_val and bits[c_idx] != c_val` exactly when it falsifies it (literal
 conditionals over signature atoms; string / bit manipulation outside the executor's subset;
-compared with the solver path by module c19); BITS -- the bit dictionary built by __init__ has the
-worlds as keys and maps each to its bits.  Not covered: to_compilation (reads the caches)."""
+compared with the solver path by module c19).  BitsOf(w, b) is defined (b lists the integer values
+of the characters of w) and __init__ is proved to build that dictionary.  Not covered:
+to_compilation (reads the caches)."""
 import z3
 
 from contracts import c_preocf as CP
@@ -104,7 +105,14 @@ def wf_self(c, name="self"):
 
 # --- assumed: literal masks --------------------------------------------------------------------
 LitMask = z3.Function("LitMask", MaskT.sort(), L.Cnd, L.Bool)
-BitsOf = z3.Function("BitsOf", StrSort, LInt.sort, L.Bool)
+# BitsOf(w, b): b is the list of the integer values of the characters of w (what __init__ stores in world_bits)
+BitVals, _ = IT.defpred_all("BitVals", [StrSort, LInt.sort, L.Int], lambda x: x[2], lambda x, k: LInt.at(x[1], k) == int_of_str(chr_at(x[0], k)), lambda x, k: LInt.at(x[1], k))
+
+
+def BitsOf(w, b):
+    return z3.And(LInt.len(b) == strlen(w), BitVals(w, b, LInt.len(b)))
+
+
 _mk = z3.Const("_lm_m", MaskT.sort())
 _cn = z3.Const("_lm_c", L.Cnd)
 _w = z3.Const("_lm_w", StrSort)
@@ -116,7 +124,7 @@ _con = LInt.at(_b, _ci) == _cv
 MASK_AXIOMS = [
     Forall(
         [_mk, _cn, _w, _b],
-        [LitMask(_mk, _cn), BitsOf(_w, _b)],
+        [LitMask(_mk, _cn), BitVals(_w, _b, LInt.len(_b))],
         z3.Implies(
             z3.And(LitMask(_mk, _cn), BitsOf(_w, _b)),
             z3.And(
@@ -252,15 +260,25 @@ Contract(
 
 
 # --- __init__: the empty model is well formed, then one add_conditional per revision conditional -------------
-def _bits_abstraction(s):
-    """ASSUMED (BITS): {w: [int(b) for b in w] for w in self.worlds} has the worlds as its keys and maps each to its bits"""
-    st = s._ex.st
-    ws = _f(s, "worlds")
-    d = TDict(TList(TInt), TStr).fresh("world_bits", st)
-    w = z3.Const("_ba_w", StrSort)
-    st.assume(d.keys == ws.t)
-    st.assume(Forall([w], [z3.Select(d.val, w)], BitsOf(w, z3.Select(d.val, w)), "assumed.BITS"))
-    return d
+def _bits_inv(s, j, pre):
+    d = s._st.env.get("_dc")
+    if not isinstance(d, VDict):
+        return [j == 0]
+    ws = _f(s, "worlds").t
+    p = z3.Int("_bi_p")
+    return [
+        LStr.len(d.keys) == j,
+        L.LForall([p], [LStr.at(d.keys, p)], z3.Implies(z3.And(0 <= p, p < j), LStr.at(d.keys, p) == LStr.at(ws, p)), "bits.keys"),
+        L.LForall([p], [LStr.at(ws, p)], z3.Implies(z3.And(0 <= p, p < j), z3.And(LStr.at(d.keys, p) == LStr.at(ws, p), BitsOf(LStr.at(ws, p), z3.Select(d.val, LStr.at(ws, p))))), "bits.vals"),
+        ws == _f(pre, "worlds").t,
+    ]
+
+
+def _digit_worlds(c):
+    """the worlds of the ranking are strings of integer literals (bitstrings): int(b) does not raise"""
+    ks = c.field(c.ranking_function, "ranks").keys
+    p, k = z3.Ints("_dw_p _dw_k")
+    return Forall([p, k], [chr_at(LStr.at(ks, p), k)], z3.Implies(z3.And(0 <= p, p < LStr.len(ks), 0 <= k, k < strlen(LStr.at(ks, p))), is_int_literal(chr_at(LStr.at(ks, p), k))), "worlds.are.digit.strings")
 
 
 def _empty_inv(s, j, pre):
@@ -296,16 +314,17 @@ Contract(
     "inference.c_revision_model:CRevisionModel.__init__",
     params={"self": MODEL, "ranking_function": CP.OCF, "revision_conditionals": TList(TCnd)},
     returns=TNone,
-    locals={"_dc": TDict(TSet(TInt), TStr)},
+    locals={"_dc": TDict(TSet(TInt), TStr), "_dc1": TDict(TList(TInt), TStr)},
+    requires=lambda c: [_digit_worlds(c)],
     ensures=lambda c, r: _init_state(c, L.LCnd.len(c.revision_conditionals.t)),
     raises={"ValueError": lambda c: z3.BoolVal(True)},
     modifies=["self.ranking_function", "self.worlds", "self.conds", "self.masks", "self.world_acc", "self.world_rej", "self.world_bits", "self.sig_index"],
     abstractions={
         "list(ranking_function.signature)": (lambda s: VOpaque("signature"), "TB-py: a copy of the signature (only passed on to _extract_cond_masks)"),
         "{v: i for i, v in enumerate(self.signature)}": (lambda s: VOpaque("sig_index"), "TB-py: atom -> position (only passed on to _extract_cond_masks, whose contract MASK is assumed)"),
-        "{w: [int(b) for b in w] for w in self.worlds}": (_bits_abstraction, "ASSUMED (BITS): the bit dictionary has the worlds as keys and maps each world to its bits (string manipulation; bounded: module c19)"),
     },
     loops={
+        1: LoopSpec("{... for w in self.worlds}", _bits_inv),
         2: LoopSpec("{... for w in self.worlds}", _empty_inv),
         3: LoopSpec("{... for w in self.worlds}", _empty_inv),
         4: LoopSpec("for cond in revision_conditionals", lambda s, j, pre: _init_state(s, j)),
